@@ -108,7 +108,13 @@ func wrapSyntacticError(state interface {
 		// the number of bytes read that lead to the error.
 		// This implies that the offset is after the invalid text.
 		if werr, ok := err.(*jsonwire.InvalidTextError); ok && werr != nil {
-			offset += int64(len(werr.What))
+			if werr.Where == "in string" && len(werr.What) > 1 {
+				// The text of an invalid escape sequence may extend beyond
+				// the offending byte by as much as happened to be buffered.
+				offset += int64(jsonwire.InvalidEscapeSequenceLen(werr.What))
+			} else {
+				offset += int64(len(werr.What))
+			}
 		} else {
 			// This implies a structural error (e.g., parsing a JSON number
 			// when the grammar is expecting a JSON string for the object name).
